@@ -253,3 +253,94 @@ def c17_special_values(rep, ap, rng, tier):
                     rep.violation('conv:special:shift', 'shift(%d) does not keep the entry %r bit-wise' % (s, sv), dict(kind='conv-special', value=repr(sv)))
         except Exception as e:
             rep.violation('conv:special:exception', 'conversion raises %r with an entry %r' % (e, sv), dict(kind='conv-special', value=repr(sv), exc=repr(e)))
+
+
+def c05_projection_nodes(rep, ap, rng, tier):
+    """real / imag / conjugate applied while recording with REAL data (where they are the identity / zero / the identity on the values)
+    must still be recorded as nodes: the graph replayed at a complex point has to apply them.  Call forms: module function, Function
+    method; recorded with a plain array or a polynomial; replayed with a complex array and a complex polynomial."""
+    U = ap.UTPM
+    forms = [('algopy.real', lambda z: ap.real(z)), ('algopy.imag', lambda z: ap.imag(z)), ('algopy.conjugate', lambda z: ap.conjugate(z)),
+             ('z.real()', lambda z: z.real() if isinstance(z, ap.Function) else ap.real(z)),
+             ('z.imag()', lambda z: z.imag() if isinstance(z, ap.Function) else ap.imag(z)),
+             ('z.conjugate()', lambda z: z.conjugate() if isinstance(z, ap.Function) else ap.conjugate(z))]
+    for it in range(6 if tier == 'quick' else 60):
+        N = 1 + it % 3
+        w = numpy.array([float(rng.randint(1, 5)) for _ in range(N)])
+        for fname, f in forms:
+            def prog(x):
+                z = x * x + 2.0 * x
+                return ap.sum(f(z) * w) + ap.sum(x) * 0.5
+            for rec_kind in ('ndarray', 'UTPM'):
+                xr = numpy.array([rng.uniform(0.5, 2.0) for _ in range(N)])
+                x_rec = xr if rec_kind == 'ndarray' else U(numpy.array([[xr], [xr[::-1]]]))
+                try:
+                    cg = ap.CGraph(); fx = ap.Function(x_rec); fy = prog(fx)
+                    cg.trace_off(); cg.independentFunctionList = [fx]; cg.dependentFunctionList = [fy]
+                except Exception as e:
+                    rep.notes.append('projection program %s: recording raised %r' % (fname, e)); continue
+                names = [getattr(getattr(g, 'func', None), '__name__', '') for g in cg.functionList]
+                rep.count('projection node form', fname)
+                want_node = fname.split('.')[-1].replace('()', '')
+                if not any(want_node in nm for nm in names):
+                    rep.violation('record:projection-node', '%s applied to real data while recording left no node on the tape (nodes: %s)' % (fname, names),
+                                  dict(kind='projection', form=fname, recorded_with=rec_kind, nodes=names))
+                for rk in ('ndarray_complex', 'UTPM_complex', 'ndarray_real'):
+                    re_ = numpy.array([rng.uniform(0.5, 2.0) for _ in range(N)]); im_ = numpy.array([rng.uniform(0.5, 2.0) for _ in range(N)])
+                    if rk == 'ndarray_complex':
+                        xn = re_ + 1j * im_
+                    elif rk == 'ndarray_real':
+                        xn = re_
+                    else:
+                        xn = U(numpy.array([[re_ + 1j * im_, im_ - 1j * re_], [im_ + 0.5j * re_, re_ * (1 + 1j)]]))
+                    rep.case(('projection', fname, rec_kind, rk, repr(re_.tolist()), repr(im_.tolist())), True,
+                             sample=dict(check='projection nodes replayed at a complex point', form=fname, recorded_with=rec_kind, replayed_with=rk))
+                    try:
+                        want = prog(xn if not isinstance(xn, U) else U(xn.data.copy()))
+                        got = cg.function([xn])[0]
+                    except Exception as e:
+                        rep.violation('replay:projection:exception', 'replay of a program with %s raises %r' % (fname, e), dict(kind='projection', form=fname, replayed_with=rk)); continue
+                    a = numpy.asarray(got.data if isinstance(got, U) else got); b = numpy.asarray(want.data if isinstance(want, U) else want)
+                    if a.shape != b.shape or not numpy.all(numpy.abs(a - b) <= 1e-12 * (1 + numpy.abs(b))):
+                        rep.violation('replay:projection', 'graph with %s recorded at a real %s, replayed with %s: differs from running the program there (%r vs %r)'
+                                      % (fname, rec_kind, rk, a.ravel()[:3].tolist(), b.ravel()[:3].tolist()),
+                                      dict(kind='projection', form=fname, recorded_with=rec_kind, replayed_with=rk, N=N, got=repr(a.tolist()), want=repr(b.tolist())))
+
+
+def staged_spectra(rng, tier):
+    """symmetric A(t) = W(t) diag(lambda(t)) W(t)^T mod t^D with W(t) = Q0 exp(S t) orthogonal and eigenvalue polynomials chosen so that a
+    cluster of the base spectrum splits IN STAGES (3 -> 2+1 at order 1 -> 1+1+1 at order 2; a pair only at order 2) while SIMPLE base
+    eigenvalues sit below, between or above the clusters (the block bookkeeping of _eigh then has blocks of size 1 next to blocks that are
+    refined again at later orders)."""
+    r = lambda: float(rng.choice([-1.5, -0.5, 0.75, 1.25, 2.5]))
+    pats = [('[1,2,2,2] 3->2+1->1+1+1', [[1, 2, 2, 2], [r(), 0.5, 0.5, -1.0], [r(), 1.0, -2.0, r()]]),
+            ('[1,2,2,3,3] pair@1, pair@2', [[1, 2, 2, 3, 3], [r(), 1.0, -1.0, 0.5, 0.5], [r(), r(), r(), 2.0, -1.0]]),
+            ('[2,2,2,5] simple above', [[2, 2, 2, 5], [0.5, 0.5, -1.0, r()], [1.0, -2.0, r(), r()]]),
+            ('[0,1,1,1,4] simple on both sides', [[0, 1, 1, 1, 4], [r(), 2.0, 2.0, -1.0, r()], [r(), 1.0, 3.0, r(), r()]]),
+            ('[1,2,2] pair@2 above a simple one', [[1, 2, 2], [r(), 1.0, 1.0], [r(), -1.0, 2.0]]),
+            ('[1,3,3,3,3] 4->2+2->1+1+1+1', [[1, 3, 3, 3, 3], [r(), 1.0, 1.0, -1.0, -1.0], [r(), 0.5, -0.5, 2.0, -2.0]]),
+            ('[-1,0,2,2,2] two simple below', [[-1, 0, 2, 2, 2], [r(), r(), 0.5, 0.5, -1.0], [r(), r(), 1.0, -2.0, r()]])]
+    out = []
+    for k, (name, coeffs) in enumerate(pats):
+        n = len(coeffs[0])
+        for De in ((3, 4) if tier == 'quick' else (3, 4, 5, 6)):
+            P = 1 + (k + De) % 2
+            Ae = numpy.zeros((De, P, n, n))
+            for p in range(P):
+                lam = numpy.zeros((De, n))
+                for d in range(De):
+                    lam[d] = coeffs[d] if d < len(coeffs) else [r() for _ in range(n)]
+                if p == 1:
+                    lam[1:] *= -0.5        # another direction: same stages, different values (ascending base order is kept)
+                Q0, _ = numpy.linalg.qr(numpy.array([[rng.uniform(-1, 1) for _ in range(n)] for _ in range(n)]))
+                S = numpy.array([[rng.uniform(-1, 1) for _ in range(n)] for _ in range(n)]); S = S - S.T
+                W = numpy.zeros((De, n, n)); W[0] = Q0
+                for d in range(1, De):
+                    W[d] = W[d - 1] @ S / d
+                for d in range(De):
+                    for a in range(d + 1):
+                        for b in range(d - a + 1):
+                            Ae[d, p] += W[a] @ numpy.diag(lam[b]) @ W[d - a - b].T
+                Ae[:, p] = 0.5 * (Ae[:, p] + Ae[:, p].transpose((0, 2, 1)))
+            out.append((name, De, Ae))
+    return out
